@@ -164,6 +164,7 @@ func CheckC19(e *Env) (int, error) {
 		"evaluations":         pairs,
 		"distinct_nontrivial": len(a.NonTrivial),
 		"rule":                "case = one seeded history (pool world: <= 80 API calls over a mutable object pool; sign world: <= 64 signing operations under fault-injecting entropy devices; lookup world: <= 48 steps of raw constant-time table lookups / table refills / destination overwrites through a verif-tagged hook, with tables and destinations placed at 0 or 8 mod 16) executed in BOTH builds (amd64 assembly, purego) from the same tape; the SHA-256 over every step's inputs and outputs must be identical. evaluations = history pairs compared; distinct_nontrivial = distinct history digests in which at least one injected fault fired.",
+		"bounds_depth":        fmt.Sprintf("%d (the stated bounds on history length / callers / operations are those of depth 1, the quick tier; the thorough tier runs at depth 2: twice the history length, up to 8 callers x 8 operations)", e.Depth),
 		"samples": e.samplesOrFetch(traced, 2, func() *Job {
 			return &Job{Bin: binA, Variant: "asm", World: "pool", Prop: prop, From: 0, N: 4, Extra: []string{"-trace"}}
 		}),
@@ -231,7 +232,7 @@ func (e *Env) reportDivergence(binA, binP, world string, idx int) (string, kerne
 		return "", kernel.Violation{}, harnessErr("could not record tape of %s#%d: %v", world, idx, j.Err)
 	}
 	rec := j.Results[0]
-	rf := &replay.File{Property: "C19", World: world, Prop: "C19", Variant: "asm+purego", VerifSeed: e.Seed, Idx: idx, Tape: rec.Tape}
+	rf := &replay.File{Depth: e.Depth, Property: "C19", World: world, Prop: "C19", Variant: "asm+purego", VerifSeed: e.Seed, Idx: idx, Tape: rec.Tape}
 	ctr := 0
 	lock := make(chan struct{}, 1)
 	lock <- struct{}{}
